@@ -66,7 +66,15 @@ class PathInfo:
                         names = tuple(v["name"] for v in vs if v["discr"] not in listed or v["discr"] in vals)
                     else:
                         names = tuple(v["name"] for v in vs if v["discr"] in vals)
-                    out.append(("variant", canon(ds[1]), names, ds[1]))
+                    subj_t = ds[1]
+                    # `opt.ok_or(e)?` / `opt.ok_or_else(f)?` decide on `opt` itself: Continue is Some, Break is None
+                    s0 = terms.strip(subj_t)
+                    if s0[0] == "call" and isinstance(s0[1], str) and s0[1].endswith("::ops::Try>::branch") and s0[2]:
+                        s1 = terms.strip(s0[2][0])
+                        if s1[0] == "call" and s1[1] in ("std::option::Option::ok_or", "std::option::Option::ok_or_else") and s1[2]:
+                            subj_t = s1[2][0]
+                            names = tuple({"Continue": "Some", "Break": "None"}.get(n_, n_) for n_ in names)
+                    out.append(("variant", canon(subj_t), names, subj_t))
                     continue
             if t["dty"] == "bool":
                 truth = not (vals == {0} and not other)
